@@ -517,6 +517,9 @@ pub fn rewriter_from(p: u64, hyps: &[Fm], vars_only: bool) -> Rewriter {
 pub struct Uni {
     pub var: u32,
     pub p: u64,
+    /// treat every UF application as the constant recorded as its shadow, even when its
+    /// arguments depend on `t` ("challenges frozen at their honest values")
+    pub freeze_uf: bool,
     memo: HashMap<u32, Option<(Vec<u64>, Vec<u64>)>>,
 }
 
@@ -554,7 +557,7 @@ fn up_mul(a: &[u64], b: &[u64], p: u64) -> Vec<u64> {
 
 impl Uni {
     pub fn new(var: u32, p: u64) -> Self {
-        Self { var, p, memo: HashMap::new() }
+        Self { var, p, freeze_uf: false, memo: HashMap::new() }
     }
     pub fn eval(&mut self, h: H) -> Option<(Vec<u64>, Vec<u64>)> {
         let p = self.p;
@@ -594,6 +597,9 @@ impl Uni {
                 Some((da, na))
             }
             Node::Uf { args, .. } => {
+                if self.freeze_uf {
+                    return Some((vec![shadow], vec![1]));
+                }
                 for a in args.iter() {
                     let (n, d) = self.eval(*a)?;
                     if n.len() > 1 || d.len() > 1 {
@@ -643,10 +649,94 @@ pub fn up_smt(c: &[u64]) -> String {
     s
 }
 
+/// Formula `c(t) ≡ 0 (mod p)` for `t` in `[0, p)`: a linear polynomial is solved for `t`
+/// (field inverse), higher degrees stay polynomial.
+pub fn up_zero_smt(c: &[u64], p: u64) -> String {
+    match c.len() {
+        1 => (if c[0] % p == 0 { "true" } else { "false" }).to_string(),
+        2 => {
+            let root = mulmod(submod(0, c[0], p), invmod(c[1], p), p);
+            format!("(= t {root})")
+        }
+        _ => format!("(= (mod {} {p}) 0)", up_smt(c)),
+    }
+}
+
 pub fn up_eval(c: &[u64], t: u64, p: u64) -> u64 {
     let mut acc = 0u64;
     for k in (0..c.len()).rev() {
         acc = addmod(mulmod(acc, t, p), c[k], p);
     }
     acc
+}
+
+/// Declarations accumulated while rendering terms that contain UF applications depending on `t`.
+#[derive(Default)]
+pub struct UniDecls {
+    pub ufs: std::collections::BTreeMap<String, usize>,
+    /// `(define-fun uN () Int ...)` lines, in dependency order (shared sub-terms are named once)
+    pub defs: Vec<String>,
+    /// ground facts: every `t`-dependent UF application evaluated at the honest point
+    pub honest: Vec<String>,
+    names: HashMap<u32, String>,
+}
+
+impl Uni {
+    /// SMT-LIB Int term (value in `[0, p)`) of `h` as a function of the constant `t`; UF
+    /// applications that depend on `t` become named applications of declared functions.
+    pub fn smt(&mut self, h: H, dc: &mut UniDecls) -> Option<String> {
+        let p = self.p;
+        if let Some((n, d)) = self.eval(h) {
+            if d.len() == 1 {
+                return Some(if n.len() == 1 { format!("{}", n[0]) } else { format!("(mod {} {p})", up_smt(&n)) });
+            }
+            return None;
+        }
+        let H::N(i) = h else { return None };
+        if let Some(n) = dc.names.get(&i) {
+            return Some(n.clone());
+        }
+        let node = with_arena(|a| a.nodes[i as usize].clone());
+        let body = match node {
+            Node::Uf { f, args, idx } => {
+                let fname = with_arena(|a| a.uf_names[f as usize].clone());
+                let name = format!("uf_{}_{}_{}", fname.replace(|c: char| !c.is_ascii_alphanumeric(), "_"), args.len(), idx);
+                dc.ufs.insert(name.clone(), args.len());
+                let mut parts = Vec::new();
+                for a in args.iter() {
+                    parts.push(self.smt(*a, dc)?);
+                }
+                let (shadow_args, shadow) = with_arena(|a| (args.iter().map(|x| a.shadow(*x)).collect::<Vec<_>>(), a.shadows[i as usize]));
+                dc.honest.push(format!("(= ({name} {}) {shadow})", shadow_args.iter().map(|x| x.to_string()).collect::<Vec<_>>().join(" ")));
+                format!("({name} {})", parts.join(" "))
+            }
+            Node::Add(a, b) => format!("(mod (+ {} {}) {p})", self.smt(a, dc)?, self.smt(b, dc)?),
+            Node::Sub(a, b) => format!("(mod (- {} {}) {p})", self.smt(a, dc)?, self.smt(b, dc)?),
+            Node::Mul(a, b) => format!("(mod (* {} {}) {p})", self.smt(a, dc)?, self.smt(b, dc)?),
+            Node::Neg(a) => format!("(mod (- {}) {p})", self.smt(a, dc)?),
+            Node::Inv(_) | Node::Var(_) => return None,
+        };
+        let name = format!("u{i}");
+        dc.defs.push(format!("(define-fun {name} () Int {body})"));
+        dc.names.insert(i, name.clone());
+        Some(name)
+    }
+
+    /// Formula of `l == r` in `t`, plus non-constant denominators that must be non-zero.
+    /// `Some(None)`: the equality holds identically (nothing to assert).
+    pub fn eq_smt(&mut self, l: H, r: H, dc: &mut UniDecls, dens: &mut Vec<Vec<u64>>) -> Option<Option<String>> {
+        let p = self.p;
+        if let Some((d, ds)) = self.diff(l, r) {
+            dens.extend(ds);
+            if d.len() == 1 {
+                return Some(if d[0] == 0 { None } else { Some("false".into()) });
+            }
+            return Some(Some(up_zero_smt(&d, p)));
+        }
+        let (a, b) = (self.smt(l, dc)?, self.smt(r, dc)?);
+        if a == b {
+            return Some(None);
+        }
+        Some(Some(format!("(= {a} {b})")))
+    }
 }
